@@ -43,6 +43,16 @@ type c17ExDomain struct {
 	Lines []string    `json:"lines"`
 }
 
+// the document writes, inside the domain Parent, a sub-domain Name containing SubKey=SubVal and a key Name=Val
+type c17Collide struct {
+	Parent   []string `json:"parent"`
+	Name     string   `json:"name"`
+	SubKey   string   `json:"sub_key"`
+	SubVal   string   `json:"sub_val"`
+	Val      string   `json:"val"`
+	KeyFirst bool     `json:"key_first"`
+}
+
 type c17Case struct {
 	Kind     string        `json:"kind"`
 	Inject   string        `json:"inject,omitempty"`
@@ -52,6 +62,7 @@ type c17Case struct {
 	MustOk   bool          `json:"must_ok,omitempty"`
 	Expect   []c17ExDomain `json:"expect,omitempty"`
 	Extra    []B           `json:"extra_paths,omitempty"`
+	Collide  *c17Collide   `json:"collision,omitempty"` // a key and a sub-domain of the same name in one domain
 	Err      bool          `json:"err"`
 	ErrMsg   string        `json:"err_msg,omitempty"`
 	PanicMsg string        `json:"panic,omitempty"`
@@ -351,6 +362,33 @@ func c17RunCase(c *c17Case) []Failure {
 			if kq.BoolT != c17ExBool(kv[1], true) || kq.BoolF != c17ExBool(kv[1], false) {
 				bad("conf.GetBool/typed-differs", "GetBoolWithDef(%q) = %v/%v (defaults true/false) for value %q", string(kq.Path), kq.BoolT, kq.BoolF, kv[1])
 			}
+		}
+	}
+	if cl := c.Collide; cl != nil {
+		pp := domPath(cl.Parent)
+		if len(cl.Parent) == 0 {
+			pp = ""
+		}
+		var sub, val string
+		var doms []string
+		if pm := c17Safe(func() {
+			sub = cf.GetStringWithDef(pp+"/"+cl.Name+"<"+cl.SubKey+">", c17DefStr)
+			val = cf.GetStringWithDef(pp+"<"+cl.Name+">", c17DefStr)
+			doms = cf.GetDomain(pp + "/")
+		}); pm != "" {
+			bad("conf.getter/panic", "a getter panicked on the colliding names: %s", pm)
+		}
+		listed := false
+		for _, d := range doms {
+			listed = listed || d == cl.Name
+		}
+		if sub != cl.SubVal || val != cl.Val || !listed {
+			sig := "conf.name-collision/key-replaces-domain"
+			if cl.KeyFirst {
+				sig = "conf.name-collision/domain-hidden-by-key"
+			}
+			bad(sig, "domain %q contains the sub-domain %q (with %s=%s) and the key %s=%s: GetString(sub-domain key) = %q, GetString(key) = %q, GetDomain lists the sub-domain: %v",
+				pp+"/", cl.Name, cl.SubKey, cl.SubVal, cl.Name, cl.Val, sub, val, listed)
 		}
 	}
 	// the two documented spellings of a path: /A/B/C<data> and /A/B/C/<data>; /A/B/C and /A/B/C/
@@ -1027,6 +1065,32 @@ func c17Gen(tier string, rng *rand.Rand) []c17Case {
 			cs = append(cs, c17Case{Kind: "random-bytes", Segs: segs1(rb), Sure: false, Class: "random-bytes"})
 		}
 	}
+	nc := 12
+	if tier == "thorough" {
+		nc = 150
+	}
+	for it := 0; it < nc; it++ {
+		cl := &c17Collide{Name: c17DomNames[rng.Intn(len(c17DomNames))], SubKey: []string{"c", "k", "endpoint"}[rng.Intn(3)], SubVal: []string{"2", "tcp -h 1.2.3.4", "x=y"}[rng.Intn(3)],
+			Val: []string{"1", "", "v w"}[rng.Intn(3)], KeyFirst: rng.Intn(2) == 0}
+		for d := rng.Intn(3); d > 0; d-- {
+			cl.Parent = append(cl.Parent, c17DomNames[rng.Intn(len(c17DomNames))])
+		}
+		var sb bytes.Buffer
+		for _, n := range cl.Parent {
+			sb.WriteString("<" + n + ">\n")
+		}
+		dom := "<" + cl.Name + ">\n  " + cl.SubKey + " = " + cl.SubVal + "\n</" + cl.Name + ">\n"
+		key := cl.Name + "=" + cl.Val + "\n"
+		if cl.KeyFirst {
+			sb.WriteString(key + dom)
+		} else {
+			sb.WriteString(dom + key)
+		}
+		for i := len(cl.Parent) - 1; i >= 0; i-- {
+			sb.WriteString("</" + cl.Parent[i] + ">\n")
+		}
+		cs = append(cs, c17Case{Kind: "collision", Segs: segs1(sb.Bytes()), Sure: true, MustOk: true, Collide: cl, Class: fmt.Sprintf("collision/keyfirst=%v/depth%d", cl.KeyFirst, len(cl.Parent))})
+	}
 	c17GenLong(tier, rng, &cs)
 	return cs
 }
@@ -1051,12 +1115,16 @@ func c17Corpus() []c17Case {
 		{Path: []string{"tars", "application", "client"}, Subs: []string{}, KV: [][2]string{{"modulename", "MMGR.TestServer"}, {"sync-invoke-timeout", "3000"}}, Lines: []string{"sync-invoke-timeout=3000", "modulename=MMGR.TestServer"}}}
 	c6 := mk("corpus", "empty", "", false)
 	c6.Expect = []c17ExDomain{{Path: []string{}, Subs: []string{}, KV: [][2]string{}, Lines: []string{}}}
-	c7 := mk("corpus", "key-then-domain", "<a>b=1\n<b>c=2</b>\n</a><a>b=3</a>", false)
+	c7 := mk("corpus", "key-then-domain", "<a>b=1\n<b>c=2</b>\n</a>", false)
+	c7.Collide = &c17Collide{Parent: []string{"a"}, Name: "b", SubKey: "c", SubVal: "2", Val: "1", KeyFirst: true}
 	c8 := mk("corpus", "domain-then-key", "<a><b>c=2</b>\nb=1\n</a>", false)
+	c8.Collide = &c17Collide{Parent: []string{"a"}, Name: "b", SubKey: "c", SubVal: "2", Val: "1", KeyFirst: false}
+	c9 := mk("corpus", "key-domain-key", "<a>b=1\n<b>c=2</b>\n</a><a>b=3</a>", false)
+	c9.Extra = []B{B("/a<b>"), B("/a/b<c>"), B("/a/b"), B("/a")}
 	for _, c := range []*c17Case{&c7, &c8} {
 		c.Extra = []B{B("/a<b>"), B("/a/b<c>"), B("/a/b"), B("/a")}
 	}
-	return []c17Case{c1, c2, c3, c4, c5, c6, c7, c8}
+	return []c17Case{c1, c2, c3, c4, c5, c6, c7, c8, c9}
 }
 
 func init() {
